@@ -144,6 +144,17 @@ def _replies(ctx, rep, stub):
                      'check placed plain, under or/not/and and behind an alias; injected Timeout and ConnectionError' % len(bodies))
 
 
+def _snap(v):
+    """Deep structural snapshot of a target value; opaque objects by identity."""
+    if isinstance(v, dict):
+        return ('dict', id(v), sorted((repr(k), _snap(x)) for k, x in v.items()))
+    if isinstance(v, (list, tuple, set, frozenset)):
+        return (type(v).__name__, id(v), [_snap(x) for x in (v if isinstance(v, (list, tuple)) else sorted(v, key=repr))])
+    if type(v) is object:
+        return ('opaque', id(v))
+    return (type(v).__name__, repr(v))
+
+
 def _payload(ctx, rep, stub):
     """What is sent: URL with placeholders filled, enforced policy name, complete target, credentials, encoding; and the
     caller's target is left unmodified."""
@@ -152,6 +163,8 @@ def _payload(ctx, rep, stub):
         for depth_rule in ('http://h/%(tk)s', 'role:zz or http://h/%(tk)s', 'rule:deep'):
             for target in ({'tk': 'tv'}, {'tk': 'tv', 'nested': {'a': [1, {'b': None}]}, 'n': 5},
                            {'tk': 'tv', 'obj': object(), 'lst': [object.__new__(object)]},
+                           # an opaque object below the top level (seeded change C16-A7: shallow copy + in-place blanking)
+                           {'tk': 'tv', 'meta': {'handle': object(), 'n': 1, 'more': {'h2': object()}}, 'top': object()},
                            {'tk': 'tv', 'ids': ('p1', 'p2'), 'flag': True, 'ratio': 1.5, 'none': None, 'empty': [], 'u': 'é'}):
                 if any(isinstance(x, list) and x and type(x[0]) is object for x in target.values()):
                     target = {k: v for k, v in target.items() if k != 'lst'}
@@ -164,11 +177,18 @@ def _payload(ctx, rep, stub):
                 stub.plan = {'http://h/tv': ('body', 'True', 200)}
                 before = dict(target)
                 before_ids = {k: id(v) for k, v in target.items()}
+                before_deep = _snap(target)
+                nested_opaque = 'meta' in target
                 out = impl.outcome(lambda: e.enforce('p:name', target, creds))
                 key = 'c16pay:%s|%s|%s' % (ctype, depth_rule, sorted(before))
-                if target != before or {k: id(v) for k, v in target.items()} != before_ids:
+                if target != before or {k: id(v) for k, v in target.items()} != before_ids or _snap(target) != before_deep:
                     rep.fail(key, 'the caller\'s target was modified by the http check: %r -> %r' % (before, target), {})
-                if out != 'allow' or len(stub.calls) != 1:
+                if nested_opaque and out == 'raise:ValueError' and not stub.calls and ctype.endswith('urlencoded'):
+                    # unchanged tree: only top-level opaque objects are blanked; one inside a nested container cannot be
+                    # serialised for the form encoding, no request is sent and enforce raises (never an allow) — observed,
+                    # see DESIGN section 14 round 7.  The target must still be unmodified (checked above).
+                    rep.stat('payload:nested-opaque-not-serialisable')
+                elif out != 'allow' or len(stub.calls) != 1:
                     rep.fail(key, 'http check: outcome %s, %d request(s) sent' % (out, len(stub.calls)), {})
                 else:
                     url, kw = stub.calls[0]
@@ -185,6 +205,11 @@ def _payload(ctx, rep, stub):
                                   json.loads(sent['credentials']) == creds)
                         except Exception:
                             ok = False
+                    if nested_opaque:
+                        # how a nested opaque object is serialised is not part of the property; the top-level one is blanked
+                        tsent = sent.get('target')
+                        tsent = json.loads(tsent) if isinstance(tsent, str) else (tsent or {})
+                        ok = tsent.get('top') == {} and tsent.get('tk') == 'tv' and 'meta' in tsent
                     if url != 'http://h/tv' or not ok:
                         rep.fail(key, 'request to %r carries %r; expected URL http://h/tv with rule p:name, the complete target '
                                  'and the credentials (%s)' % (url, {k: str(v)[:120] for k, v in kw.items()}, ctype), {})
